@@ -1,6 +1,24 @@
 """Per-property manifest metadata.  bin/mkmanifest renders MANIFEST.json from this."""
 
 CHECKS = {
+    "C10": dict(
+        text="spec/Failure.tla abstracts the vertical slice AshProtocol / Gateway / EZSP / application callback to what the property talks "
+             "about (failure time and kind, when the EZSP layer learnt of it and asked for a controller reset, request count, calls in "
+             "progress, deliberate close) with every clause an enabling condition; FailureMC enables every failure kind in every state "
+             "of an abstract model of the slice and checks reporting, stopping, no request on close / when unregistered, and that every "
+             "call ends (liveness under fair timers). The real stack (EZSP over uart.connect, Gateway, AshProtocol on a fake serial line "
+             "vs. the simulated NCP, versions 8 and 4 quick / + 13, 14 thorough) runs 5 workloads (idle, one command, one in flight + "
+             "two queued, EZSP.reset() in progress, command issued after the failure); ERROR(code), unsolicited RSTACK(code), silent NCP, "
+             "connection_lost(exc), EOF and deliberate close are injected after every wire event of the fault-free run, as their own "
+             "event-loop callback and queued right behind the event, with and without a registered callback; TLC judges each run "
+             "(request delivered, no write once known, termination within command + link timeouts, probe command refused without a write, "
+             "nothing escaping a protocol callback, nothing left pending).",
+        design_ref="3/C10",
+        note="Trusted: full-stack rig (fake serial transport that stops delivering reads once closed, simulated ASH + EZSP NCP), virtual "
+             "time. A silent NCP is noticed only when something is sent (the harness issues the keep-alive a watchdog would); an "
+             "unanswered RST is reported by reset() itself (C11). The InvalidStateError defect fixed under C11 also affected C10.",
+        technique="TLA+ observer spec + abstract model checked by TLC (safety and liveness); crash-point enumeration on the full implementation stack in virtual time; TLC trace validation",
+    ),
     "C09": dict(
         text="spec/Bringup.tla states the negotiation contract from the NCP's EZSP layer (after each NCP reset: first frame is the legacy "
              "3-byte version query for version 4; if the NCP is not version 4 the next frame is a version query in the NCP's native "
